@@ -149,6 +149,58 @@ def o_derived(spec):
     return {"classes": cl | {nm}, "nontrivial": "derived_after_matrix_read" in cl}
 
 
+# ---------------------------------------------------------------- built-in gates next to user gates of the same name
+# "every built-in gate ... matrix ... keeps its textbook identities" must not depend on what else was evaluated in the
+# process: a user-defined MatrixFactoryGate / custom gate may carry the name (and parameter values) of a built-in one.
+
+
+@st.composite
+def alike_cases(draw, tier):
+    nm = draw(st.sampled_from(cgen.NAMES))
+    return {"g": nm, "p": [draw(params_for()) for _ in range(cgen.TABLE[nm][1])], "mseed": draw(st.integers(0, 10 ** 6)),
+            "kind": draw(st.sampled_from(["factory", "factory_hermitian", "definition"])), "first": draw(st.sampled_from(["alike", "alike", "builtin"]))}
+
+
+def o_alike(spec):
+    import sympy
+    from orquestra.quantum.circuits import CustomGateDefinition, MatrixFactoryGate
+
+    nm, ps = spec["g"], spec["p"]
+    k, npar = cgen.TABLE[nm]
+    U = cgen.random_unitary(k, spec["mseed"])
+    if spec["kind"] == "factory_hermitian":
+        U = U @ np.diag([1.0] + [-1.0] * (2 ** k - 1)) @ U.conj().T  # a reflection: Hermitian and unitary
+    Um = sympy.Matrix(U.tolist())
+
+    def alike():
+        if spec["kind"] == "definition":
+            syms = tuple(sympy.Symbol("u%d" % i) for i in range(npar))
+            return CustomGateDefinition(nm, Um, syms)(*ps)
+        return MatrixFactoryGate(nm, lambda *a: Um, tuple(ps), k, is_hermitian=spec["kind"] == "factory_hermitian")
+
+    def check_builtin(when):
+        g = cgen.build_base({"g": nm, "p": ps})
+        M = must(lambda: ref.npm(g.matrix), f"{nm}.matrix")
+        R = ref.closed(nm, ps)
+        require(M.shape == R.shape and ref.close(M, R, 1e-8), lambda: f"built-in {nm}{ps} {when} differs from its closed form, max|d|={ref.maxdiff(M, R) if M.shape == R.shape else 'shape'}")
+        flagged = bool(getattr(g, "is_hermitian", False))
+        D = must(lambda: ref.npm(g.dagger.matrix), f"{nm}.dagger.matrix")
+        require(ref.close(D, R.conj().T, 1e-8), lambda: f"built-in {nm}{ps}.dagger {when} is not the adjoint")
+        require((not flagged) or ref.close(R, R.conj().T, 1e-9), f"{nm} flagged self-adjoint but is not")
+
+    def check_alike(when):
+        a = alike()
+        M = must(lambda: ref.npm(a.matrix), "user gate matrix")
+        require(ref.close(M, U, 1e-9), lambda: f"user-defined gate named {nm} {when} does not report its own matrix")
+
+    if spec["first"] == "builtin":
+        check_builtin("(fresh)")
+    check_alike("(first)")
+    check_builtin("after a user-defined gate of the same name and parameters was evaluated")
+    check_alike("after the built-in gate was evaluated")
+    return {"classes": [nm, "kind:" + spec["kind"]], "nontrivial": True}
+
+
 RELATIONS = ["S2=Z", "T2=S", "SX2=X", "HZH=X", "CNOT=cX", "CZ=cZ", "SWAP", "Delay=I",
              "CNOT=diag(I,X)", "CZ=diag(I,Z)", "I=identity"]
 
@@ -200,4 +252,6 @@ SUBCHECKS = [
 ]
 SUBCHECKS.append(SubCheck("derived_gates", o_derived, strategy=derived_cases, examples=(400, 2500), shards=(2, 8),
                           rule="one gate family, 2-4 parameter tuples reached by replace_params / bind of a symbolic instance / a fresh call, matrices read in between: every gate object has the matrix of its own parameters; non-trivial = a gate derived from one whose matrix had been read"))
+SUBCHECKS.append(SubCheck("name_alikes", o_alike, strategy=alike_cases, examples=(300, 2000), shards=(2, 8),
+                          rule="a built-in gate evaluated before / after a user-defined MatrixFactoryGate or custom gate carrying the same name and parameter values: both keep their own matrices"))
 SUBCHECKS[0].expected_classes = list(cgen.NAMES)
